@@ -39,6 +39,48 @@ def execute(ctx, sc, tag, via_server=False):
             "classes": [e["cls"] for e in evs]}
 
 
+def optimized_replay(ctx, behaviours):
+    """Replays behaviours in a child interpreter started with -O; returns the recorded executions."""
+    import os
+    import subprocess
+    import sys
+    src = os.path.join(ctx.scratch, "opt_in.json")
+    dst = os.path.join(ctx.scratch, "opt_out.json")
+    with open(src, "w") as f:
+        json.dump({"seed": ctx.seed, "behaviours": behaviours}, f)
+    root = os.path.dirname(os.path.dirname(os.path.dirname(os.path.abspath(__file__))))
+    p = subprocess.run([sys.executable, "-O", "-c",
+                        "from harness.drivers import c09; c09.opt_worker(%r, %r)" % (src, dst)],
+                       cwd=root, env=dict(os.environ, PYTHONDONTWRITEBYTECODE="1"),
+                       stdout=subprocess.PIPE, stderr=subprocess.STDOUT, text=True, timeout=1800)
+    if p.returncode != 0 or not os.path.exists(dst):
+        raise core.MachineryError("replay under python -O failed: %s" % p.stdout[-800:])
+    with open(dst) as f:
+        return json.load(f)
+
+
+def opt_worker(src, dst):
+    import random
+    import sys
+    if sys.flags.optimize < 1:
+        raise SystemExit("not an optimized interpreter")
+    with open(src) as f:
+        job = json.load(f)
+    from .. import env
+    env.setup()
+    ctx = core.Ctx("C09", "quick", job["seed"])
+    ctx.rng = random.Random("C09:opt:%d" % job["seed"])
+    out = []
+    try:
+        for k, b in enumerate(job["behaviours"]):
+            sc = bringup.scenario_from_env(b["plat"], b["needchg"], b["env"], ctx.rng)
+            out.append(execute(ctx, sc, "o%d" % k))
+    finally:
+        ctx.cleanup()
+    with open(dst, "w") as f:
+        json.dump(out, f)
+
+
 def random_env(rng):
     """Binding B: device configurations drawn from the concrete domains (version bytes 0..255,
     retries 0..255), biased towards the neighbourhood of 5.4.1."""
@@ -104,6 +146,15 @@ def run(ctx):
             t["drift"] = {"model_outcome": b["outcome"], "model_hist": b["hist"]}
         traces.append(t)
     res.coverage["behaviours_replayed"] = len(order)
+    # 3b. the same behaviours once more in an interpreter started with -O (assert statements compiled away, as
+    # PYTHONOPTIMIZE=1 in the manager's environment does)
+    opt = optimized_replay(ctx, [behaviours[bi] for bi in order])
+    for t in opt:
+        t["id"] = len(traces) + 1
+        t["src"] = "model-behaviour, python -O"
+        t["desc"] = dict(t["desc"], interpreter="-O")
+        traces.append(t)
+    res.coverage["behaviours_replayed_under_python_O"] = len(opt)
     res.coverage["replayed_through_TCPServer_run"] = min(n_server, len(order))
     res.coverage["model_drift"] = drift
     # 4. random configurations (binding B)
